@@ -41,6 +41,17 @@ def call(which: str, fn: str, data):
     return out["ok"]
 
 
+def refusal_differs_off(fn_ref: str, d, here: str, line: str, every: int = 5):
+    """`here` is the in-process outcome of a case that the library REFUSED for a reason the property itself demands (not one
+    of the optional type / loop checks).  For one in `every` such cases the same case is run in the interpreter that was
+    started with BIGTREE_CONF_ASSERTIONS=""; returns its outcome when it differs, else None."""
+    import zlib
+    if zlib.crc32(line.encode()) % every:
+        return None
+    off = call("off", fn_ref, d)
+    return None if off == here else off
+
+
 @atexit.register
 def _stop():
     for p in _PROCS.values():
